@@ -313,7 +313,24 @@ func runC10Loop(t *testing.T, three bool, budgets []int) CaseOut {
 			m.end()
 			return
 		}
+		// scripted peers send no periodic updates on their own: refresh their routes before every experiment,
+		// otherwise the sessions and the phantom routes expire after ~20 virtual seconds
+		seq := uint64(10)
+		refresh := func() {
+			seq++
+			ev.inject(mkRoute(wireRoute{NodeID: "evil", UpdateID: fmt.Sprintf("e%d", seq), UpdateEpoch: 10, UpdateSequence: seq, Connections: map[string]float64{last: 1, "ghost": 1, "ghost2": 1}, ForwardingNode: "evil"}))
+			ev.inject(mkRoute(wireRoute{NodeID: "ghost", UpdateID: fmt.Sprintf("g%d", seq), UpdateEpoch: 10, UpdateSequence: seq, Connections: map[string]float64{"evil": 1}, ForwardingNode: "evil"}))
+			ev.inject(mkRoute(wireRoute{NodeID: "ghost2", UpdateID: fmt.Sprintf("h%d", seq), UpdateEpoch: 10, UpdateSequence: seq, Connections: map[string]float64{"evil": 1}, ForwardingNode: "evil"}))
+			if ev2 != nil {
+				// (a regular update must list the cost a itself uses for the link, or a ends the session)
+				ev2.inject(mkRoute(wireRoute{NodeID: "evil2", UpdateID: fmt.Sprintf("f%d", seq), UpdateEpoch: 10, UpdateSequence: seq, Connections: map[string]float64{"a": 1}, ForwardingNode: "evil2"}))
+			}
+			synctest.Wait()
+			m.settle()
+			m.recvd = map[string][][]byte{}
+		}
 		for _, h := range budgets {
+			refresh()
 			m.recvd = map[string][][]byte{}
 			pc, _ := m.nodes["a"].ListenPacket("snd")
 			pc.SetHopsToLive(byte(h))
@@ -377,7 +394,7 @@ func runC10Loop(t *testing.T, three bool, budgets []int) CaseOut {
 				out.violate("hop:loop-forwarded-more-than-budget", "%s: real nodes forwarded the datagram %d times (bounced %d times)", ctx, forwards, bounces)
 			}
 			if h > 0 && forwards != h {
-				out.violate("hop:loop-forward-count", "%s: %d forwards, expected the whole budget to be used up in the loop", ctx, forwards)
+				out.violate("hop:loop-forward-count", "%s: %d forwards (%d bounces), expected the whole budget to be used up in the loop; routes of a: %v", ctx, forwards, bounces, m.nodes["a"].Status().RoutingTable)
 			}
 			if len(notices) != 1 || notices[0].Problem != netceptor.ProblemExpiredInTransit {
 				out.violate("hop:loop-no-expiry-notice", "%s: notices %+v", ctx, notices)
@@ -399,6 +416,7 @@ func runC10Loop(t *testing.T, three bool, budgets []int) CaseOut {
 				continue
 			}
 			for _, kind := range []string{"data", "unreach"} {
+				refresh()
 				m.recvd = map[string][][]byte{}
 				var pkt []byte
 				if kind == "data" {
